@@ -574,7 +574,66 @@ func c08Aliasing(w *W, r *rand.Rand, c *c08Case) {
 }
 
 // race phase: 16 goroutines compile a shuffled list over shared Configs
+// c08Cold: the very first compilations of a process run concurrently (a server that compiles its rules in parallel at
+// start-up): nothing in the library may be initialised lazily without synchronisation.
+var c08Cold = true
+
+func c08ColdStart(w *W) {
+	srcs := []string{"(+ 1 2 3)", "(and (< 1 2) (= 3 3))", "(if (> 2 1) (* 2 3) 0)", "(in 2 (1 2 3))", "(version \"1.2.3\")", "(not (or false (!= 1 1)))"}
+	got := make([][]string, 0)
+	const goroutines = 32
+	var wg sync.WaitGroup
+	start := make(chan struct{})
+	fails := make([]string, goroutines)
+	for g := 0; g < goroutines; g++ {
+		got = append(got, make([]string, len(srcs)))
+	}
+	for g := 0; g < goroutines; g++ {
+		wg.Add(1)
+		go func(g int) {
+			defer wg.Done()
+			<-start
+			for k := range srcs {
+				i := (k + g) % len(srcs)
+				e, co := compileGuard(eval.NewConfig(), srcs[i])
+				if co.Panic != nil || co.Err != nil {
+					fails[g] = fmt.Sprintf("Compile(%s) gave %s", srcs[i], co)
+					return
+				}
+				got[g][i], _ = dumpGuard(e)
+			}
+		}(g)
+	}
+	close(start)
+	wg.Wait()
+	w.Inc("cold_start_concurrent_compilations")
+	for _, f := range fails {
+		if f != "" {
+			w.Fail("compile-not-deterministic/cold-start", "among the first, concurrent compilations of the process: %s", f)
+			return
+		}
+	}
+	// the same sources compiled afterwards, one at a time
+	for i, src := range srcs {
+		e, co := compileGuard(eval.NewConfig(), src)
+		if co.Panic != nil || co.Err != nil {
+			continue
+		}
+		want, _ := dumpGuard(e)
+		for g := range got {
+			if got[g][i] != want {
+				w.Fail("compile-not-deterministic/cold-start", "among the first, concurrent compilations of the process Compile(%s) dumped as %q; compiled again afterwards it dumps as %q", src, got[g][i], want)
+				return
+			}
+		}
+	}
+}
+
 func c08Race(w *W, idx int) {
+	if c08Cold {
+		c08Cold = false
+		c08ColdStart(w)
+	}
 	r := w.Rand(idx)
 	n := 6
 	cases := make([]*c08Case, n)
